@@ -285,8 +285,8 @@ http_date_if_modified_since (const char * const ifmod, const uint32_t ifmodlen,
                              const unix_time64_t lmtime)
 {
     struct tm ifmodtm;
-    if (NULL == http_date_str_to_tm(ifmod, ifmodlen, &ifmodtm))
-        return 1; /* date parse error */
+    if (http_date_str_to_tm(ifmod, ifmodlen, &ifmodtm) != ifmod + ifmodlen)
+        return 1; /* date parse error (or trailing chars: not an HTTP-date) */
     const time_t ifmtime = timegm(&ifmodtm);
     return (lmtime > TIME64_CAST(ifmtime) || ifmtime == (time_t)-1);
     /* returns 0 if not modified since,
